@@ -239,9 +239,81 @@ def show(args):
     return {k: repr(v) for k, v in args.items()}
 
 
+def generic_suite(req):
+    """Search without a target obligation (bounded complement / stand-in): the polynomial
+    operations on random RATIONAL vectors and matrices against definitions written here; results
+    must be exact (a float where a rational is due is a failure)."""
+    import desper.math as dm
+    rng = random.Random(req.get('seed', 0))
+    n = 300 if req.get('tier') != 'thorough' else 1500
+
+    def fr():
+        return Fraction(rng.randint(-9, 9), rng.randint(1, 7))
+
+    def exact(x):
+        return isinstance(x, (int, Fraction)) and not isinstance(x, bool)
+
+    def bad(what, got, exp, args):
+        return {'status': 'reproduced', 'history': {'call': what, 'args': {k: repr(v) for k, v in args.items()}},
+                'observed': '%s returned %r, expected %r' % (what, got, exp), 'found_by': 'native generic suite',
+                'signature': 'C18:' + what}
+    # (the default Mat4() has float entries: an integer identity keeps the comparison exact)
+    I4 = dm.Mat4([1 if i % 5 == 0 else 0 for i in range(16)])
+    for it in range(n):
+        for V, k in ((dm.Vec2, 2), (dm.Vec3, 3), (dm.Vec4, 4)):
+            a, b = V(*[fr() for _ in range(k)]), V(*[fr() for _ in range(k)])
+            big = V(*([2 ** 53] + [1] * (k - 1)))
+            one = V(*([1] * k))
+            t = fr()
+            d = a.dot(b)
+            e = sum(x * y for x, y in zip(a, b))
+            if d != e or not exact(d):
+                return bad(V.__name__ + '.dot', d, e, {'a': a, 'b': b})
+            d = big.dot(one)
+            if d != 2 ** 53 + k - 1 or not exact(d):
+                return bad(V.__name__ + '.dot', d, 2 ** 53 + k - 1, {'a': big, 'b': one})
+            for name, got, exp in (('__add__', a + b, [x + y for x, y in zip(a, b)]),
+                                   ('__sub__', a - b, [x - y for x, y in zip(a, b)]),
+                                   ('__neg__', -a, [-x for x in a]),
+                                   ('lerp', a.lerp(b, t), [x + (y - x) * t for x, y in zip(a, b)])):
+                if list(got) != exp or not all(exact(x) for x in got) or type(got) is not V:
+                    return bad('%s.%s' % (V.__name__, name), got, exp, {'a': a, 'b': b, 't': t})
+        a, b = dm.Vec3(fr(), fr(), fr()), dm.Vec3(fr(), fr(), fr())
+        c = a.cross(b)
+        e = [a[1] * b[2] - a[2] * b[1], a[2] * b[0] - a[0] * b[2], a[0] * b[1] - a[1] * b[0]]
+        if list(c) != e:
+            return bad('Vec3.cross', c, e, {'a': a, 'b': b})
+        A, B, C = (dm.Mat4([fr() for _ in range(16)]) for _ in range(3))
+        v = dm.Vec4(fr(), fr(), fr(), fr())
+        if tuple((A @ B) @ C) != tuple(A @ (B @ C)):
+            return bad('Mat4.__matmul__ (associativity)', (A @ B) @ C, A @ (B @ C), {'A': A, 'B': B, 'C': C})
+        if tuple(A @ I4) != tuple(A) or tuple(I4 @ A) != tuple(A):
+            return bad('Mat4.__matmul__ (identity)', A @ I4, A, {'A': A})
+        if tuple((A @ B) @ v) != tuple(B @ (A @ v)):
+            return bad('Mat4.__matmul__ (vector)', (A @ B) @ v, B @ (A @ v), {'A': A, 'B': B, 'v': v})
+        T = A.transpose()
+        if any(T[4 * i + j] != A[4 * j + i] for i in range(4) for j in range(4)):
+            return bad('Mat4.transpose', T, None, {'A': A})
+        w = dm.Vec3(fr(), fr(), fr())
+
+        def close(x, y):
+            return all(abs(float(p_) - float(q_)) <= 1e-9 * max(1.0, abs(float(q_))) for p_, q_ in zip(x, y))
+        if not close(A.translate(w), A @ dm.Mat4.from_translation(w)):
+            return bad('Mat4.translate', A.translate(w), A @ dm.Mat4.from_translation(w), {'A': A, 'v': w})
+        with warnings.catch_warnings():
+            warnings.simplefilter('ignore')
+            inv = ~A
+        if inv is not A and not (close(A @ inv, I4) and close(inv @ A, I4)):
+            return bad('Mat4.__invert__', A @ inv, I4, {'A': A})
+    return {'status': 'not-found', 'tried': n}
+
+
 def main():
     req = json.loads(sys.stdin.read())
-    ob = req['obligation']
+    ob = req.get('obligation') or {}
+    if req.get('mode') == 'search' and (not ob.get('contract') or ob.get('kind') == 'bounded'):
+        print(json.dumps(generic_suite(req), default=str))
+        return
     contract = ob.get('contract')
     clause = (ob.get('info') or {}).get('clause')
     kind = ob.get('kind')
